@@ -1,17 +1,19 @@
 #!/bin/bash
 # usage: confirm_seed.sh <seed id>   -- confirms a seeded change in a scratch worktree of /repo (removed afterwards)
 id=$1
+S=/verif/seeded/$id
 orig=$id
 case $id in C05_3) orig=C05_1;; C05_4) orig=C05_2;; esac
-S=/verif/seeded/$id
+[ -f $S/orig_id.txt ] && orig=$(cat $S/orig_id.txt)
 wt=/tmp/confirm/wt_$id
 out=/tmp/confirm/results/$id.txt
+mkdir -p /tmp/confirm/results
 git -C /repo worktree add -q --detach $wt HEAD || exit 9
 mkdir -p $wt/_seed/$orig && cp $S/* $wt/_seed/$orig/
 cd $wt
 timeout 600 /venv/bin/python -W ignore _seed/$orig/demo.py > /tmp/confirm/results/$id.clean.log 2>&1; c0=$?
 git apply _seed/$orig/patch.diff; ap=$?
 timeout 600 /venv/bin/python -W ignore _seed/$orig/demo.py > /tmp/confirm/results/$id.mut.log 2>&1; c1=$?
-t=$(timeout 1800 /venv/bin/python -m pytest -q -p no:cacheprovider --deselect tests/test_examples.py::TestExamplesCVXPY::test_gradient_descent_lc --deselect tests/test_examples.py::TestExamplesMosek::test_gradient_descent_lc -n 4 --timeout=900 2>&1 | tail -1)
+t=$(timeout 1800 /venv/bin/python -m pytest -q -p no:cacheprovider --deselect tests/test_examples.py::TestExamplesCVXPY::test_gradient_descent_lc --deselect tests/test_examples.py::TestExamplesMosek::test_gradient_descent_lc -n 4 --timeout=900 tests 2>&1 | tail -1)
 echo "$id apply=$ap demo_clean=$c0 demo_mutated=$c1 suite='$t'" > $out
 cd /; git -C /repo worktree remove --force $wt
